@@ -251,8 +251,8 @@ class World(object):
                     bad = "metaclass"
                 elif isinstance(n, ast.FunctionDef) and n.name in ("__getattr__", "__getattribute__", "__setattr__"):
                     bad = "definition of %s" % n.name
-                elif isinstance(n, (ast.AsyncFunctionDef, ast.Await, ast.Yield, ast.YieldFrom)):
-                    bad = "async/generator construct"
+                elif isinstance(n, (ast.AsyncFunctionDef, ast.Await, ast.AsyncFor, ast.AsyncWith)):
+                    bad = "async construct"          # (plain generators are evaluated eagerly by the evaluator)
                 if bad:
                     raise AnalysisError("%s:%d: %s is outside the analysable subset"
                                         % (m.relpath, getattr(n, "lineno", 0), bad))
